@@ -21,17 +21,6 @@ TECHNIQUE = ("Coq proof (induction over programs of nested override blocks with 
 HEADER = ("From Coq Require Import ZArith List Bool.\nFrom TFV Require Import State.Overrides.\n"
           "Import ListNotations.\nOpen Scope Z_scope.\n")
 
-# finding proposed for KNOWN_FINDINGS.json (this builder may not edit that file).  While it is not
-# listed there the check prints the KNOWN-FINDING line itself; once listed (status open, same
-# site+fingerprint) it goes through common.finish like every other finding.
-F11 = {
-    "site": "tf_pwa/amp/amp.py AbsPDF.temp_params",
-    "fingerprint": "temp_params_saves_masked_values",
-    "what": ("AbsPDF.temp_params saves get_params() = vm.get_all_dic(), which reads THROUGH vm.mask_vars; entered "
-             "inside mask_params (or inside a factor_iteration loop) it writes the mask values into the variables on "
-             "exit, so they stay overridden after the mask block ends (R_BC_mass 0.5 -> 0.75)"),
-}
-
 CFG = {
     "data": {"dat_order": ["B", "C", "D"]},
     "decay": {
@@ -170,6 +159,8 @@ def gen_blk(rnd, M, masked, allow_unsafe=False):
     if not masked or allow_unsafe:
         kinds += ["temp_params", "temp_params"]
     k = rnd.choice(kinds)
+    if masked and allow_unsafe and rnd.random() < 0.5:
+        k = "temp_params"  # the nesting that leaked before feefe02
     dy = lambda: rnd.randrange(-96, 97) / 64.0
     if k in ("temp_params", "vm_temp_params", "mask_params"):
         names = rnd.sample(M.names, rnd.randrange(1, 4))
@@ -259,9 +250,11 @@ FIXED_PROGS = [
     ("with", ("temp_used_res", ["R_BC"], []), ("with", ("mask_params", {"R_BC_mass": 0.53125}), ("helper", ("pw", [(["R_BC"], [])])))),
     ("with", ("temp_params", {"R_BC_mass": 0.625}), ("with", ("mask_params", {"R_BC_mass": 0.375}), ("seq", ("eval",), ("helper", ("ff_ng", ["R_BC"], 5))))),
 ]
-UNSAFE_PROGS = [  # F11: AbsPDF.temp_params entered while a parameter mask is active
+MASKED_PROGS = [  # AbsPDF.temp_params entered while a parameter mask is active (leaked before feefe02)
     ("with", ("mask_params", {"R_BC_mass": 0.75}), ("with", ("temp_params", {"R_BD_mass": 0.625}), ("eval",))),
     ("fiter", ("with", ("temp_params", {"R_BD_mass": 0.625}), ("eval",))),
+    ("with", ("mask_params", {"R_BC_mass": 0.75, "R_CD_width": 0.125}),
+     ("seq", ("eval",), ("with", ("temp_params", {"R_BC_mass": 0.625}), ("helper", ("interf",))))),
 ]
 
 
@@ -461,7 +454,7 @@ def campaign(ctx, M, tag, progs, inits, rnd, max_pos):
     evaluation point; returns Coq cases + direct property failures"""
     prelude = ["Definition E_%s : env := %s." % (tag, c_env(M))]
     cases, meta, direct = [], {}, []
-    for pi, (p, safe) in enumerate(progs):
+    for pi, p in enumerate(progs):
         init = inits[pi % len(inits)] if pi >= len(FIXED_PROGS) else inits[0]
         base = run_impl(M, p, None, init)
         n = base[6]
@@ -491,13 +484,8 @@ def campaign(ctx, M, tag, progs, inits, rnd, max_pos):
                 ctx.count("not_full_recomputed(observation)")
                 del diff["nf"]
             if diff or d0 != d1:
-                direct.append({"input": inp, "safe": safe, "state_diff": diff, "density_changed": d0 != d1, "escaped": exn})
+                direct.append({"input": inp, "state_diff": diff, "density_changed": d0 != d1, "escaped": exn})
     return prelude, cases, meta, direct
-
-
-def classify_direct(d):
-    """F11 iff the program enters AbsPDF.temp_params under a mask and only parameter values differ"""
-    return (not d["safe"]) and set(d["state_diff"]) <= {"vars"}
 
 
 def run(ctx):
@@ -516,26 +504,19 @@ def run(ctx):
     M = Model(CFG, ctx.seed + 17)
     inits = [(list(range(M.nch)), None), ([0, 1], None), ([2], None), ([1, 0, 2], None), ([], ["R_BC", 1, 2]), ([0, 2], None)]
     nrand = 40 if quick else 250
-    progs = [(p, True) for p in FIXED_PROGS]
-    while len(progs) < len(FIXED_PROGS) + nrand:
-        p = gen_prog(rnd, M, rnd.choice([2, 3, 3, 4]))
-        if is_safe(p):
-            progs.append((p, True))
-    progs += [(p, False) for p in UNSAFE_PROGS]
-    for _ in range(4 if quick else 40):
-        p = gen_prog(rnd, M, 3, allow_unsafe=True)
-        progs.append((p, is_safe(p)))
+    progs = list(FIXED_PROGS) + list(MASKED_PROGS)
+    while len(progs) < len(FIXED_PROGS) + len(MASKED_PROGS) + nrand:
+        p = gen_prog(rnd, M, rnd.choice([2, 3, 3, 4]), allow_unsafe=True)
+        progs.append(p)
+        ctx.count("temp_params_under_mask=%s" % ("no" if is_safe(p) else "yes"))
     ctx.log("model A: %d chains, %d variables, %d programs" % (M.nch, len(M.names), len(progs)))
     prelude, cases, meta, direct = campaign(ctx, M, "a", progs, inits, rnd, 10 if quick else 25)
     if not quick:
         M4 = Model(CFG4, ctx.seed + 18)
         inits4 = [(list(range(4)), None), ([0, 2], None), ([3, 1], None), ([], ["R_BC", 3]), ([1], None)]
-        progs4 = []
-        while len(progs4) < 100:
-            p = gen_prog(rnd, M4, rnd.choice([2, 3, 4]))
-            if is_safe(p):
-                progs4.append((p, True))
-        progs4 = [(p, True) for p in FIXED_PROGS] + progs4
+        progs4 = list(FIXED_PROGS) + list(MASKED_PROGS)
+        while len(progs4) < 100 + len(FIXED_PROGS):
+            progs4.append(gen_prog(rnd, M4, rnd.choice([2, 3, 4]), allow_unsafe=True))
         ctx.log("model B: %d chains, %d variables, %d programs" % (M4.nch, len(M4.names), len(progs4)))
         pl4, cs4, mt4, dr4 = campaign(ctx, M4, "b", progs4, inits4, rnd, 15)
         prelude += pl4
@@ -543,7 +524,7 @@ def run(ctx):
         meta.update(mt4)
         direct += dr4
     ctx.log("implementation runs: %d" % len(cases))
-    ctx.sample({"program": progs[15][0], "coq": c_prog(M, progs[15][0])})
+    ctx.sample({"program": progs[15], "coq": c_prog(M, progs[15])})
     ctx.sample({"case": cases[min(40, len(cases) - 1)][1][:1500]})
     res = common.coq_cases(ctx, "tie", HEADER, cases, per_file=max(40, len(cases) // 32 + 1), prelude="\n".join(prelude))
     for cid, r in res.items():
@@ -552,29 +533,15 @@ def run(ctx):
                      inp=meta[cid], site="override blocks / helpers", fingerprint="tie")
     # direct property failures
     ctx._direct = []
-    known_listed = any(k.get("property") == "C17" and k.get("status") == "open" and k.get("site") == F11["site"]
-                       and k.get("fingerprint") == F11["fingerprint"] for k in common.load_known())
-    f11_seen = False
     for d in direct:
-        if classify_direct(d):
-            ctx.count("F11_reproduced")
-            if known_listed:
-                ctx.fail("property", "F11", "temp_params under an active mask leaks the mask values", inp=d["input"],
-                         site=F11["site"], fingerprint=F11["fingerprint"], failing_input=d)
-            f11_seen = True
-            continue
         ctx._direct.append(d)
         ctx.fail("property", "direct", "model state / density differs after the program: %s" % json.dumps(d["state_diff"], default=str)[:600],
                  inp=d["input"], site="override blocks / helpers", fingerprint="direct", failing_input=d)
-    if f11_seen and not known_listed:
-        print("KNOWN-FINDING: property=C17 (pending entry for KNOWN_FINDINGS.json) %s" % F11["what"], flush=True)
-        ctx.notes.append("F11 reproduced (not yet in KNOWN_FINDINGS.json): " + F11["what"])
     ctx.notes.append("observation: temp_used_res / helpers recompute not_full on exit; it differs from the value before only when the "
                      "selection had been made with set_used_res(name+index), which leaves not_full stale")
     return common.finish(
         ctx, search=search, technique=TECHNIQUE,
         extra_assumptions=[
-            "restoration theorem needs: no AbsPDF.temp_params inside an active parameter mask (refuted otherwise: finding F11)",
             "user code inside a block is modelled as read-only (it may look at the model and raise); code that itself "
             "assigns parameters is covered only by the per-manager component theorems",
             "CPython generator finalisation (closing factor_iteration on loop exit) is runtime behaviour: tied, not proved",
